@@ -12,6 +12,8 @@ pub broadcast axiom fn axiom_vec_imut_range<T>(pre: Seq<T>, r: core::ops::Range<
     ensures #[trigger] vec_imut(pre, r, a, b, post) ==> a@ == pre.subrange(r.start as int, r.end as int) && b@.len() == a@.len()
         && post == pre.subrange(0, r.start as int) + b@ + pre.subrange(r.end as int, pre.len() as int);
 
+// <[T]>::fill(v): every element becomes a *clone* of v (stubcheck: `== v` was too strong for non-trivial Clone impls);
+// for u8 the vstd axiom `cloned::<u8>(a, b) ==> a == b` gives equality back
 pub assume_specification<T: Clone> [<[T]>::fill] (s: &mut [T], v: T)
-    ensures final(s)@.len() == old(s)@.len(), forall|i: int| 0 <= i < old(s)@.len() ==> final(s)@[i] == v;
+    ensures final(s)@.len() == old(s)@.len(), forall|i: int| 0 <= i < old(s)@.len() ==> vstd::pervasive::cloned::<T>(v, #[trigger] final(s)@[i]);
 // @broadcast axiom_vec_imut_range
